@@ -1,6 +1,7 @@
 package spine
 
 import (
+	"errors"
 	"fmt"
 
 	"github.com/ahmetb/go-linq/v3"
@@ -64,6 +65,10 @@ func (r *NodeManagement) handleMsgSubscriptionRequestCall(message *api.Message, 
 	case model.CmdClassifierTypeCall:
 		subscriptionMgr := r.Device().SubscriptionManager()
 
+		if data.SubscriptionRequest == nil {
+			return errors.New("subscriptionRequest is missing")
+		}
+
 		return subscriptionMgr.AddSubscription(message.FeatureRemote.Device(), *data.SubscriptionRequest)
 
 	default:
@@ -75,6 +80,10 @@ func (r *NodeManagement) handleMsgSubscriptionDeleteCall(message *api.Message, d
 	switch message.CmdClassifier {
 	case model.CmdClassifierTypeCall:
 		subscriptionMgr := r.Device().SubscriptionManager()
+
+		if data.SubscriptionDelete == nil {
+			return errors.New("subscriptionDelete is missing")
+		}
 
 		return subscriptionMgr.RemoveSubscription(*data.SubscriptionDelete, message.FeatureRemote.Device())
 
